@@ -18,7 +18,13 @@ CFG = {
             "batch, its patch neighbours, 0.0.0, 0.0.1 and 4 seeded versions, and unversioned, and the operation in "
             "openapi(..).json() at each of those versions. Group 'docs': per probe version, are the three whole "
             "documents equal. Group 'panic': from-until pairs through constants in the wrong order (construction must "
-            "panic in all three styles). Group 'refuse' (c19 --mode refuse): 98 declarations around the macro's "
+            "panic in all three styles). Group 'tagcfg' (batch 0, both tiers): 32 trait-level tag_config arguments "
+            "- absent; every policy x allow_other_tags x {no, one, two plain, two described} tags; the optional fields "
+            "left out - each on a trait with six probe endpoints (no tag, one configured, one foreign, two configured, "
+            "untagged but unpublished, configured + foreign) and on a trait that can always be built: get_tag_config() "
+            "of the impl- and stub-built descriptions, the refused operation ids per style (free functions on an "
+            "ApiDescription carrying the declared TagConfig / trait impl / trait stub) and document equality; a "
+            "declared configuration that is not in force is a violation. Group 'refuse' (c19 --mode refuse): 98 declarations around the macro's "
             "refusal boundaries compiled with cargo check in a scratch crate, function form and trait form. "
             "Non-trivial: every declaration case (each is a distinct program); a docs case with at least one "
             "operation. The doc attribute strings are taken as rustc tokenises them (captured by a macro_rules! "
@@ -45,7 +51,7 @@ CFG = {
     ],
     "manifest": {
         "category": "proof",
-        "text": "Unbounded Coq theorems (22, closed under the global context) about a Gallina model of the macros' "
+        "text": "Unbounded Coq theorems (29, closed under the global context) about a Gallina model of the macros' "
                 "argument handling (Macro.v: validate, VersionRange::parse, parse_semver, to_api_endpoint_fn's builder "
                 "sequence, ApiEndpoint::new/new_for_types) and of the doc-comment algorithm (DocComment.v: "
                 "normalize_comment_string, ExtractedDoc::from_attrs): every field of the produced endpoint equals the "
@@ -57,9 +63,11 @@ CFG = {
                 "(induction over the line list); the comment's own text is kept for every comment (full strength; the "
                 "code's decoration test is proved equal to the specification's reading); version literal / pair-order / wildcard / content-type refusals; the model "
                 "satisfies the executable specification used by the judge for every accepted declaration "
-                "(C19_model_meets_spec). "
+                "(C19_model_meets_spec); the trait-level tag_config is the declared one field by field, an endpoint is "
+                "registered iff it complies with it, a declared policy is in force, and the three forms are refused "
+                "alike. "
                 "Correspondence: translation validation of the real macros on 150 (quick) / 450 (thorough) generated "
-                "declarations compiled in three styles, plus 98 refusal probes compiled with cargo check; the "
+                "declarations compiled in three styles, 32 trait-level tag_config arguments x 6 probe endpoints, plus 98 refusal probes compiled with cargo check; the "
                 "specification and the model are evaluated in Coq on each observation.",
         "design_ref": "DESIGN.md §6 C19",
         "note": "Coq kernel + vm_compute; hand-written models Macro.v / DocComment.v tied by the correspondence run "
